@@ -3,8 +3,8 @@ EXTENDS XmlC14n, Json
 D0 == [x \in Prefixes |-> ""]
 DeclSmall == {D0, [D0 EXCEPT !["p"] = "urn:u1"], [D0 EXCEPT !["p"] = "urn:u2", !["q"] = "urn:u1"], [D0 EXCEPT ![""] = "urn:u2"]}
 DeclFull == DeclSmall \cup {[D0 EXCEPT !["p"] = "urn:u2"], [D0 EXCEPT !["q"] = "urn:u2"], [D0 EXCEPT ![""] = "urn:u1", !["p"] = "urn:u1"]}
-AttrSmall == {{}, {<<"", "x">>}, {<<"p", "y">>, <<"q", "x">>}}
-AttrFull == AttrSmall \cup {{<<"p", "y">>}, {<<"", "x">>, <<"q", "x">>, <<"p", "a">>}}
+AttrSmall == {{}, {<<"", "x">>, <<"q", "x">>}, {<<"p", "y">>, <<"q", "x">>}}
+AttrFull == AttrSmall \cup {{<<"p", "y">>}, {<<"", "x">>}, {<<"", "x">>, <<"q", "x">>, <<"p", "a">>}}
 \* generator: one behaviour per document, with the standard's canonical form and the form under relic's observed deviations
 Export == phase = "done" => PrintT("BEH " \o ToJson([doc |-> doc, canon |-> Canon(doc)]))
 =============================================================================
